@@ -51,7 +51,8 @@ PROPS = {
             "finite code tables (return / reason / QoS codes): tabulated by executing the real code (vh tables -> Generated/Tables.lean) and compared with the model by `decide` on every run; v5 property identifiers: compared exhaustively (256 ids x 13 positions x 2 copies) in the correspondence run",
         ],
         "modelled": ["bytes::BytesMut/Bytes buffer semantics (split_to, advance, put_*) as list operations", "Rust std String::from_utf8 acceptance (validUtf8)"],
-        "assumptions": ["max packet size passed to the readers = 2^30; v5 client write with max_size None; two trailing bytes c0 00 follow every produced frame in the decoded stream"],
+        "assumptions": ["max packet size passed to the readers = 2^30; v5 client write with max_size None; two trailing bytes c0 00 follow every produced frame in the decoded stream",
+                        "no known findings: the four defects this check found in the MQTT 5 codecs were repaired in /repo (c0aab5e, a5a3ef5, c89564d+95ce8d5, 86cba48, see KNOWN_FINDINGS.txt `fixed:`), the model follows the repaired code and the v5 theorems are stated at full strength"],
     },
     "C01": {
         "runs": [{"vh": "router", "driver": "router C01", "args": ["--profile", "c01"], "shards_thorough": 16, "selftest": True}],
